@@ -84,13 +84,13 @@ def run(tier, replay=None):
             rep.violation("%s in free-running stress round %d: %s" % (clause, nb, json.dumps(ev2[line - 1])), {"part": "queue-stress"})
         # ---- lock discipline model
         r = C.tlc(w, "Locks.tla", "MC_Locks.cfg", workers=C.NCPU, timeout=900)
-        rep.model("MC_Locks.cfg (every pair and triple of 10 lifecycle operations; deadlock + lockset; exhaustive)", r, exhaustive=True)
+        rep.model("MC_Locks.cfg (every pair and triple of 12 lifecycle operations; deadlock + lockset; exhaustive)", r, exhaustive=True)
         if r.violated or r.deadlock:
             raise C.Inconclusive("Locks model of the repaired code is not clean: %s\n%s" % (r.violated or "deadlock", r.out[-2000:]))
         C.must_complete(r, "MC_Locks")
-        for f in ("F4", "F5", "F8", "F18"):
+        for f in ("F4", "F5", "F8", "F18", "synckick", "livehistory"):
             r = C.tlc(w, "Locks.tla", "MC_Locks_%s.cfg" % f, workers=2, timeout=300)
-            rep.model("MC_Locks_%s.cfg (faithful pre-fix switch; must fail)" % f, r)
+            rep.model("MC_Locks_%s.cfg (%s; must fail)" % (f, "faithful pre-fix switch" if f.startswith("F") else "design switch: what the code deliberately does not do"), r)
             if not (r.violated or r.deadlock):
                 raise C.Inconclusive("Locks model no longer reproduces " + f)
         # ---- real code: forced deadlock schedules + racing rounds under the race detector
